@@ -76,20 +76,35 @@ def confirm(pid, x):
     return 0
 
 
+DETECT_REPO = os.environ.get("SEEDED_REPO", "/tmp/wt/detect")
+
+
+def _detect_repo():
+    """a private worktree of /repo at /repo's HEAD: mutants are applied THERE (VERIF_REPO), never to /repo itself, so that
+    the registered checks and the evidence always come from the real tree and several things can go on at once"""
+    head = sh("git -C /repo rev-parse HEAD").stdout.strip()
+    if not os.path.isdir(DETECT_REPO):
+        r = sh("git -C /repo worktree add --detach %s HEAD" % DETECT_REPO)
+        if r.returncode:
+            raise SystemExit(r.stderr)
+    sh("git -C %s checkout -q --detach %s" % (DETECT_REPO, head))
+    sh("git -C %s reset -q --hard %s" % (DETECT_REPO, head))
+    return DETECT_REPO
+
+
 def detect(name, checks):
     d = os.path.join(HERE, "seeded", name)
     meta = json.load(open(os.path.join(d, "meta.json")))
     checks = checks or [meta["property"]]
-    if sh("git -C /repo status --porcelain").stdout.strip():
-        raise SystemExit("repo dirty")
-    r = sh("git -C /repo apply %s" % os.path.join(d, "patch.diff"))
+    repo = _detect_repo()
+    r = sh("git -C %s apply %s" % (repo, os.path.join(d, "patch.diff")))
     if r.returncode:
         raise SystemExit("apply failed: " + r.stderr)
     det = meta.setdefault("detection", {})
     try:
         for c in checks:
             tier = os.environ.get("TIER", "quick")
-            rr = subprocess.run(["./check", c, "--tier", tier], cwd=HERE, capture_output=True, text=True, env=dict(os.environ, VERIF_EVIDENCE_DIR="/tmp/verif_mutant_evidence"))
+            rr = subprocess.run(["./check", c, "--tier", tier], cwd=HERE, capture_output=True, text=True, env=dict(os.environ, VERIF_EVIDENCE_DIR="/tmp/verif_mutant_evidence", VERIF_REPO=repo))
             out = [l for l in rr.stdout.splitlines() if not NOISE.match(l)]
             verdict = [l for l in out if re.match(r"^C\d+ (held|VIOLATED)", l)] or [l for l in out if l.startswith("HARNESS")] or ["?"]
             first = [l.strip() for l in out if l.startswith("  violation")][:2]
@@ -98,10 +113,8 @@ def detect(name, checks):
             for f in first[:1]:
                 print("        ", f[:260])
     finally:
-        sh("git -C /repo checkout -- .")
-        left = sh("git -C /repo status --porcelain").stdout.strip()
-        if left:
-            print("WARNING repo not clean after undo:", left)
+        sh("git -C %s checkout -- ." % repo)
+        sh("git -C %s clean -fdq" % repo)
     json.dump(meta, open(os.path.join(d, "meta.json"), "w"), indent=1)
 
 
